@@ -72,6 +72,11 @@ Definition fcnn_layers (n_in n_out : nat) (hidden : list nat) : list layer :=
 Definition fcnn_init (n_in n_out : nat) (nhu nhl : option nat) (hidden : option (list nat)) : list layer :=
   fcnn_layers n_in n_out (legacy_hidden nhu nhl hidden).
 
+(* module identity: `layers.append(nn.Linear(...))` / `layers.append(actv())` construct a NEW module for
+   every entry, so the k-th module of the Sequential is the k-th object constructed: numbering the
+   distinct objects by first appearance gives 0, 1, 2, ... (a shared activation instance would repeat) *)
+Definition module_ids (ls : list layer) : list nat := seq 0 (length ls).
+
 (* Resnet.__init__: (residual FCNN layers, skip connection) *)
 Definition resnet_init (n_in n_out : nat) (nhu nhl : option nat) (hidden : option (list nat))
   : list layer * layer :=
